@@ -241,8 +241,19 @@ func (p *Prog) ArgsBoundTo(prm *ssa.Parameter) []ssa.Value {
 						continue
 					}
 					c := ci.Common()
+					if c.IsInvoke() {
+						// interface call: bind to every repo method with that name whose receiver implements the interface
+						for _, impl := range p.methodsNamed(c.Method.Name()) {
+							rt := impl.Signature.Recv().Type()
+							if it, ok := c.Value.Type().Underlying().(*types.Interface); ok && types.Implements(rt, it) {
+								args := append([]ssa.Value{c.Value}, c.Args...)
+								argCache[impl] = append(argCache[impl], args)
+							}
+						}
+						continue
+					}
 					callee := StaticCallee(c)
-					if callee == nil || c.IsInvoke() {
+					if callee == nil {
 						continue
 					}
 					args := c.Args
@@ -258,6 +269,20 @@ func (p *Prog) ArgsBoundTo(prm *ssa.Parameter) []ssa.Value {
 		}
 	}
 	return out
+}
+
+var methodIndex map[string][]*ssa.Function
+
+func (p *Prog) methodsNamed(name string) []*ssa.Function {
+	if methodIndex == nil {
+		methodIndex = map[string][]*ssa.Function{}
+		for _, f := range p.SrcFuncs() {
+			if f.Signature.Recv() != nil && f.Parent() == nil {
+				methodIndex[f.Name()] = append(methodIndex[f.Name()], f)
+			}
+		}
+	}
+	return methodIndex[name]
 }
 
 // SameOrigin reports whether two values have a common root origin that is a creation site
